@@ -330,6 +330,10 @@ func (p *queryPlan) processClause(ctx context.Context, cls *semantic.GraphClause
 		if err != nil {
 			return false, err
 		}
+		if !inTimeBounds(cls.P, updateTimeBounds(lo, cls)) {
+			// A temporal predicate anchored outside the time bounds cannot match.
+			return true, nil
+		}
 		b, tbl, err := simpleExist(ctx, p.grfs, cls, t, p.tracer)
 		if err != nil {
 			return false, err
